@@ -95,11 +95,40 @@ pub trait Prop: Sync {
     fn watchdog_s(&self) -> u64 { 10 }
 }
 
+/// Socket set-up of the harnesses that drive a live session (bind / connect / accept on 127.0.0.1): under a loaded
+/// machine the ephemeral ports run out for a moment (thousands of sockets in TIME_WAIT) and the call fails with
+/// EADDRNOTAVAIL / EADDRINUSE; that is the harness's environment, not the implementation, so it is retried (5 s in
+/// all) instead of surfacing as a `panic` reply that the oracle would read as a panic of the code under test (seen
+/// once: `live-delay ...` answered `panic` in a full run and never again when replayed).
+#[macro_export]
+macro_rules! retry_io {
+    ($e:expr) => {{
+        let mut n = 0u32;
+        loop {
+            match $e {
+                Ok(v) => break v,
+                Err(e) => {
+                    n += 1;
+                    if n > 200 { panic!("harness: socket set-up keeps failing: {}", e); }
+                    std::thread::sleep(std::time::Duration::from_millis(25));
+                }
+            }
+        }
+    }};
+}
+
 pub fn silence_panics() {
     if std::env::var("RC_PANIC_MSG").is_ok() {
         std::panic::set_hook(Box::new(|i| { eprintln!("PANIC: {}", i); }));
     } else {
-        std::panic::set_hook(Box::new(|_| {}));
+        // silent, but the location and message of every panic are appended to `panics.log` in the working directory
+        // (work/Cxx/ under ./check): a `panic` reply can then be traced to its source line
+        std::panic::set_hook(Box::new(|i| {
+            use std::io::Write;
+            if let Ok(mut f) = std::fs::OpenOptions::new().create(true).append(true).open("panics.log") {
+                let _ = writeln!(f, "{}", i.to_string().replace('\n', " | "));
+            }
+        }));
     }
 }
 
